@@ -81,7 +81,7 @@ impl Sub for ModelRoundTrip {
         300
     }
     fn strategy(&self, _tier: Tier) -> BoxedStrategy<ModelCase> {
-        (train_spec(6, true), vec(0u8..2, 0..=2), vec(0u8..8, 1..=6))
+        (train_spec(6, true), vec(0u8..2, 0..=3), vec(0u8..8, 1..=6))
             .prop_map(|(mut spec, b, a)| {
                 spec.export_before_user = false;
                 let nuser = spec.user.as_ref().map_or(0, |u| u.len());
@@ -99,6 +99,15 @@ impl Sub for ModelRoundTrip {
                         7 if added == 0 => MOp::WriteReadAgain,
                         _ => MOp::Gen,
                     });
+                }
+                // make the interesting history frequent: a user lexicon added after the round
+                // trip and followed by both generations
+                if added < nuser && !after.contains(&MOp::WriteReadAgain) {
+                    after.push(MOp::AddUser(added));
+                    after.push(MOp::Gen);
+                    after.push(MOp::GenBigram);
+                } else if added > 0 {
+                    after.push(MOp::Gen);
                 }
                 ModelCase { spec, before, after }
             })
